@@ -1,4 +1,5 @@
 import Rivaas.Spec.OpenAPI
+set_option linter.unusedSimpArgs false
 /-
 C07 — helper lemmas: the invariant of schema generation (`gen` / `genFields`): every `$ref` emitted
 names a registered component or a struct still on the generation stack, registered names are
